@@ -85,8 +85,19 @@ def run_one(q, prop):
         scripts = q.build(fns)
     except Exception as e:
         import traceback
-        r.reason = "encoder could not build the query (source shape changed?): %s" % (traceback.format_exc()[-600:])
-        return r
+        first = traceback.format_exc()[-600:]
+        # the calls / loops the obligation is posed on are not where the encoder expects them: they may have moved into a local
+        # helper function.  Second attempt on the same MIR with calls of uniquely named local (synchronous) helpers inlined.
+        try:
+            from mirsym import modeb as _modeb
+            tbl = mir.inlined_table(fns)
+            _modeb.FNS = fns
+            _modeb._summary_cache.clear()
+            scripts = q.build(tbl)
+            r.details.append(dict(note="built on MIR with local helper calls inlined (first attempt: %s)" % first.strip().splitlines()[-1][:200]))
+        except Exception:
+            r.reason = "encoder could not build the query (source shape changed?): %s" % first
+            return r
     bad, incon = [], []
     for sc in scripts:
         path = os.path.join(SMT_DIR, "%s_%s.smt2" % (prop, re.sub(r"\W", "_", sc.name)))
